@@ -19,6 +19,8 @@ VARIANTS = {
     "C": ("simrel", "sse2", None, "", None),       # SSE2 scanner, assertions off (as shipped)
     "D": ("simdbg", "sse2", "nightly", "-Zsanitizer=address", "x86_64-unknown-linux-gnu"),
     "DB": ("simdbg", "generic", "nightly", "-Zsanitizer=address", "x86_64-unknown-linux-gnu"),
+    # source coverage of the repository under the simulator (hbv/coverage.py; reach measurement, not a check)
+    "V": ("simdbg", "sse2", "nightly", "-Cinstrument-coverage", None),
     # Miri (always the portable scanner); run through `cargo miri run`, see command()
     "E": ("dev", "generic", "nightly", "", None),
 }
